@@ -267,6 +267,7 @@ EvStopAll(S) ==
 EvEnd(kind, named, cnt) ==
   /\ flags' = flags
        \cup Flag(Busy # {}, "left_running")                                              \* C12
+       \cup Flag(kind \notin {"normal", "failure", "nometrics"}, "unexpected_exception")  \* C01 / C13
        \cup Flag(phase # "fin", "no_stop_all")
        \cup Flag(kind \in {"normal", "failure"} /\ (MonFailed > cf.maxfail) # (kind = "failure"), "failure_limit")   \* C13
        \cup Flag(kind = "failure" /\ (named \notin Trials \/ wst[named] # "fail"), "failure_not_named")   \* C13
@@ -287,6 +288,7 @@ NoFlag(f) == f \notin flags
 WorkerBudget        == NoFlag("worker_budget") /\ Cardinality(Busy) <= cf.nw
 IdsInSequence       == NoFlag("id_sequence")
 LifeCycle           == NoFlag("stop_not_running") /\ NoFlag("pause_not_running") /\ NoFlag("start_after_end")
+                       /\ NoFlag("unexpected_exception")
 ResumeOnlyPaused    == NoFlag("resume_not_paused")
 CallbackProtocol    == /\ NoFlag("protocol_add") /\ NoFlag("protocol_remove") /\ NoFlag("protocol_complete")
                        /\ NoFlag("protocol_error") /\ NoFlag("error_after_remove") /\ NoFlag("protocol_resume") /\ NoFlag("result_outside_run")
@@ -302,7 +304,7 @@ EndsOnCriterion     == NoFlag("criterion_mismatch") /\ NoFlag("ended_early") /\ 
 NothingRunningAtReturn == NoFlag("left_running") /\ NoFlag("no_stop_all") /\ (phase = "done" => Busy = {})
 CountersMatch       == NoFlag("counters")
 \* C13
-FailureContained    == NoFlag("error_not_failed") /\ NoFlag("resume_failed_run")
+FailureContained    == NoFlag("error_not_failed") /\ NoFlag("resume_failed_run") /\ NoFlag("unexpected_exception")
 FailureLimit        == NoFlag("failure_limit") /\ NoFlag("failure_not_named")
 FailureNotifiedOnce == NoFlag("protocol_error")
 \* C20
